@@ -193,13 +193,24 @@ pub(crate) fn eval_form<E: Evaluator>(
     funcall::<E>(ctx, &func, &val.cdr()?)
 }
 
+/// The value of an unquote is an object that exists already - often a form of
+/// the program that a macro was given as an argument - and keeps the position
+/// it has. Only a value without one is attributed to the template.
+fn located_at(value: TulispObject, span: Option<crate::object::Span>) -> TulispObject {
+    if value.span().is_none() {
+        value.with_span(span)
+    } else {
+        value
+    }
+}
+
 fn eval_back_quote(ctx: &mut TulispContext, mut vv: TulispObject) -> Result<TulispObject, Error> {
     if !vv.consp() {
         let inner = vv.inner_ref();
         if let TulispValue::Unquote { value } = &*inner {
             return eval(ctx, &value)
                 .map_err(|e| e.with_trace(vv.clone()))
-                .map(|x| x.with_span(value.span()));
+                .map(|x| located_at(x, value.span()));
         } else if let TulispValue::Splice { value } = &*inner {
             return eval(ctx, &value)
                 .map_err(|e| e.with_trace(vv.clone()))?
@@ -223,9 +234,10 @@ fn eval_back_quote(ctx: &mut TulispContext, mut vv: TulispObject) -> Result<Tuli
             let first_inner = &*first.inner_ref();
             if let TulispValue::Unquote { value } = first_inner {
                 ret.push(
-                    eval(ctx, &value)
-                        .map_err(|e| e.with_trace(first.clone()))?
-                        .with_span(value.span()),
+                    located_at(
+                        eval(ctx, &value).map_err(|e| e.with_trace(first.clone()))?,
+                        value.span(),
+                    ),
                 )
                 .map_err(|e| e.with_trace(first.clone()))?;
             } else if let TulispValue::Splice { value } = first_inner {
@@ -245,11 +257,10 @@ fn eval_back_quote(ctx: &mut TulispContext, mut vv: TulispObject) -> Result<Tuli
         // TODO: is Nil check necessary
         let rest = vv.cdr()?;
         if let TulispValue::Unquote { value } = &*rest.inner_ref() {
-            ret.append(
-                eval(ctx, &value)
-                    .map_err(|e| e.with_trace(rest.clone()))?
-                    .with_span(value.span()),
-            )
+            ret.append(located_at(
+                eval(ctx, &value).map_err(|e| e.with_trace(rest.clone()))?,
+                value.span(),
+            ))
             .map_err(|e| e.with_trace(rest.clone()))?;
             return Ok(ret);
         }
